@@ -380,6 +380,7 @@ where
                 }
                 vars
             }
+            LTermInner::Compound(compound) => LTerm::anyvars_compound(compound.as_ref()),
             _ => {
                 if self.is_any() {
                     vec![self.clone()]
@@ -388,6 +389,18 @@ where
                 }
             }
         }
+    }
+
+    /// The `_` variables that occur in the fields of a compound object.
+    fn anyvars_compound(compound: &dyn CompoundObject<U, E>) -> Vec<LTerm<U, E>> {
+        let mut vars = vec![];
+        for child in compound.children() {
+            match child.as_term() {
+                Some(term) => vars.extend(term.anyvars()),
+                None => vars.extend(LTerm::anyvars_compound(child)),
+            }
+        }
+        vars
     }
 }
 
